@@ -895,19 +895,34 @@ def observe_workload(D):
             except Exception:
                 pass
         return orig(self, *args)
+    import signal
+
+    class StepTimeout(Exception):
+        pass
+
+    def on_alarm(signum, frame):
+        raise StepTimeout()
     PartialDispatcher.partial_call = spy
     errs = 0
+    old = signal.signal(signal.SIGALRM, on_alarm)
     try:
         for f in workload():
+            signal.setitimer(signal.ITIMER_REAL, 15.0)   # a broken dispatcher may send a rule into a loop
             try:
                 with warnings.catch_warnings():
                     warnings.simplefilter("ignore")
                     f()
-            except Exception:
+            except (Exception, StepTimeout):
                 errs += 1
+            finally:
+                signal.setitimer(signal.ITIMER_REAL, 0)
+            if len(seen) > 20000:
+                break
     finally:
+        signal.setitimer(signal.ITIMER_REAL, 0)
+        signal.signal(signal.SIGALRM, old)
         PartialDispatcher.partial_call = orig
-    return seen, errs
+    return seen[:20000], errs
 
 
 def synth_types(U, rng, base, n):
